@@ -415,7 +415,13 @@ impl<F: PathFetcher> PathSet<F> {
         }
 
         let path_fetch = async {
-            let fetched_paths = self.fetch_and_filter_paths(manager).await?;
+            let mut fetched_paths = self.fetch_and_filter_paths(manager).await?;
+
+            // A path which is already expired is as good as no path: caching it could only get it
+            // evicted again, or worse, selected.
+            fetched_paths.retain(|p| {
+                check_path_expiry(p, now, self.config.min_expiry_threshold) != ExpiryState::Expired
+            });
 
             if fetched_paths.is_empty() {
                 // If no paths were found or all were filtered out
@@ -437,9 +443,9 @@ impl<F: PathFetcher> PathSet<F> {
                 );
 
                 self.update_path_cache(fetched_paths, now, manager);
-                let earliest_expiry = self
-                    .earliest_expiry()
-                    .expect("should have a path available, as new paths were ingested");
+                // The cache holds at least the paths just ingested, unless it is configured to
+                // hold none: then refetch as soon as allowed.
+                let earliest_expiry = self.earliest_expiry().unwrap_or(now);
 
                 // Reset error state
                 self.shared.sync.lock().unwrap().current_error = None;
